@@ -313,7 +313,7 @@ class Gen:
             return "F %s %s : %s" % (n, " ".join(ps), " ".join(self.body_tokens(ps, n)))
         n = r.choice(list(VAR))
         ps = ["a", "b"][:VAR[n]]
-        body = self.body_tokens(ps + ["__VA_ARGS__"], n)
+        body = self.body_tokens(ps, n)
         # a comma produced by an expansion inside an argument splits the argument (finding F67): in generated
         # units the variable arguments are always substituted inside parentheses
         body = [b for b in body if b != "__VA_ARGS__"]
